@@ -43,11 +43,13 @@ export const STRING_PREDS = {
   f1: (s) => s.startsWith("a"),
   f2: (s) => s.length >= 2,
   f3: (s) => s.endsWith("z"),
+  id: (s) => s.length > 0, // the same name is also a number format: the two registries are separate
 };
 export const NUMBER_PREDS = {
   n1: (x) => Number.isFinite(x),
   n2: (x) => x >= 0,
   n3: (x) => x <= 1,
+  id: (x) => x > 0,
 };
 
 // ---- substitution / unfolding ------------------------------------------------------------
